@@ -366,6 +366,14 @@ def mon_C13(run):
                 run.v("C13", "stochastic target: a polled point was judged without a posterior update (success not judged on the GP estimate)", "poll-judged-on-raw-observation", (pol.get("n_add", 0), pol["c1"] - pol["c0"]))
             elif uo.get("improvement_quantile", 0.5) == 0.5 and not uo.get("stobads") and pol.get("impr") is not None:
                 ests = [fn for fb, fn in pol["impr"]]
+                # each polled point is judged on the updated surrogate's own prediction there (not on one made before the
+                # point was evaluated)
+                post = pol.get("post") or []
+                if len(post) == len(ests) and all(p_ is not None for p_ in post):
+                    for e_, p_ in zip(ests, post):
+                        if not np.isclose(e_, p_, rtol=1e-9, atol=1e-12):
+                            run.v("C13", "polled point judged on an estimate that is not the updated surrogate's prediction at it", "poll-judged-on-stale-estimate", (e_, p_))
+                            break
                 suff = suff_of(pol["mesh"])
                 good = bool(ests) and (pol["fval0"] - min(ests)) > suff
                 if good and k1 != min(k0 + 1, cap):
@@ -388,6 +396,24 @@ def mon_C14(run):
     vt = getattr(b, "var_transf", None)
     if vt is None:
         return
+    # the search mesh (hence the mesh ratio handed to the direction generator) as the options define it: multiplier ** s with
+    # s = min(0, k * search_grid_multiplier - search_grid_number) recomputed from the exponent k at every loop pass (locked,
+    # the default), or lowered to that value after every failed poll only (search_size_locked=False)
+    uo_ = run.user_opts
+    pmm_, sgm_, sgn_ = float(uo_.get("poll_mesh_multiplier", 2.0)), uo_.get("search_grid_multiplier", 2), uo_.get("search_grid_number", 10)
+    locked_ = uo_.get("search_size_locked", True)
+    ssi_ = None
+    for pol in run.polls:
+        want_s = min(0, pol["k0"] * sgm_ - sgn_)
+        if locked_:
+            ssi_ = want_s
+        elif ssi_ is None:
+            ssi_ = min(0, int(uo_.get("init_mesh_size_integer", 0)) * sgm_ - sgn_)
+        if pol.get("smesh") is not None and not uo_.get("search_mesh_expand") and pol["smesh"] != pmm_ ** ssi_:
+            run.v("C14", "search mesh (mesh-ratio parameter of the direction generator) is not what the options define", "search-mesh-not-as-configured",
+                  (pol["smesh"], pmm_ ** ssi_, pol["k0"]))
+        if not locked_ and pol.get("k1") is not None and pol["k1"] < pol["k0"]:
+            ssi_ = min(ssi_, pol["k1"] * sgm_ - sgn_)
     for pol in run.polls:
         c0, c1 = pol["c0"], pol.get("c1")
         if c1 is None:
